@@ -193,3 +193,18 @@ def deep_sources(repo, fi, expr, at, depth=2):
                                 go(callee, r.value, r, depth - 1)
     go(fi, expr, at, depth)
     return out
+
+
+class Soft:
+    """Proxy of a Check whose obligations are `soft`: a failure on a function that was proven equal to its
+    reviewed reference form (for which the obligation holds) is a renaming artefact, not a violation."""
+
+    def __init__(self, chk):
+        self._chk = chk
+
+    def ob(self, *a, **k):
+        k.setdefault('soft', True)
+        return self._chk.ob(*a, **k)
+
+    def __getattr__(self, name):
+        return getattr(self._chk, name)
